@@ -110,7 +110,7 @@ func VerifC06_BlockingKVEndpoints(st any) {
 		m = beforeK.Index
 	}
 	verifrt.Assert("C06.rpc.first-read-index-not-zero", m != 0)
-	qo := structs.QueryOptions{MinQueryIndex: m, MaxQueryTime: 400 * time.Millisecond}
+	qo := structs.QueryOptions{MinQueryIndex: m, MaxQueryTime: 2 * time.Second}
 	vWhileBlocked(s, write)
 	switch ep {
 	case 0:
